@@ -638,6 +638,39 @@ class Program:
     def _pos(self, node: ast.AST):
         return (node.lineno, node.col_offset, node.end_lineno, node.end_col_offset)
 
+    def aiofiles_with_target(self, m: Module, fnode: ast.AST, name: str, depth: int = 0) -> bool:
+        """`name` is bound by `async with <open> as name` in fnode where <open> is aiofiles.open(...) or a call of a
+        repository function / method whose only return is such a call (the type checker sees Any through an
+        unannotated helper)."""
+        for w in ast.walk(fnode):
+            if not isinstance(w, (ast.With, ast.AsyncWith)):
+                continue
+            for it in w.items:
+                if not (isinstance(it.optional_vars, ast.Name) and it.optional_vars.id == name):
+                    continue
+                ce = it.context_expr.value if isinstance(it.context_expr, ast.Await) else it.context_expr
+                if self._is_aiofiles_open(m, ce, 0):
+                    return True
+        return False
+
+    def _is_aiofiles_open(self, m: Module, ce: ast.expr, depth: int) -> bool:
+        if not isinstance(ce, ast.Call) or depth > 2:
+            return False
+        mm = self.origin(m, ce)
+        d = self.resolve_expr(mm, ce.func) if isinstance(ce.func, (ast.Name, ast.Attribute)) else None
+        if d is not None and d.kind == "external" and d.obj in ("aiofiles.open", "aiofiles.threadpool.open"):
+            return True
+        hs = []
+        if d is not None and d.kind == "func":
+            hs = [d.obj]
+        elif isinstance(ce.func, ast.Attribute) and isinstance(ce.func.value, ast.Name) and ce.func.value.id in ("self", "cls"):
+            hs = [f for c in self.all_classes() if c.module is mm for f in c.methods.get(ce.func.attr, [])]
+        for h in hs:
+            rets = [n.value for n in ast.walk(h.node) if isinstance(n, ast.Return) and n.value is not None]
+            if len(rets) == 1 and self._is_aiofiles_open(h.module, rets[0], depth + 1):
+                return True
+        return False
+
     def type_of(self, m: Module, node: ast.expr) -> str | None:
         m = self.origin(m, node)
         et, _, _ = self._mod_index(m)
